@@ -52,3 +52,23 @@ Definition check_case (c : case17) : report :=
   end.
 
 Definition check_cases (l : list case17) : list string := render (map check_case l).
+
+(* C14's view of the same runs: validation is the first step of every search - a rejected query or limit means nothing is
+   searched, printed or recorded; an accepted limit (1..100) bounds what is printed *)
+Definition check_validation (c : case17) : report :=
+  match c with
+  | KSearch s =>
+      let v :=
+        if s_panic s then Some "crash"
+        else if negb (s_accepted s && s_limit_ok s) then
+          (if negb (match s_printed s with [] => true | _ => false end) then Some "rejected_searches_nothing"
+           else if negb (Z.eqb (s_hist_after s) (s_hist_before s)) then Some "rejected_not_recorded" else None)
+        else if negb ((1 <=? s_limit s)%Z && (s_limit s <=? 100)%Z) then Some "accepted_limit_range"
+        else if negb (Z.of_nat (List.length (s_printed s)) <=? s_limit s)%Z then Some "accepted_limit_enforced"
+        else None in
+      {| r_verdict := match v with Some cl => VPredFail cl | None => VOk end;
+         r_trivial := false; r_tags := ["cli"] ++ (if s_accepted s && s_limit_ok s then ["accepted"] else ["rejected"]) |}
+  | _ => {| r_verdict := VOk; r_trivial := true; r_tags := ["cli-other"] |}
+  end.
+
+Definition check_validation_cases (l : list case17) : list string := render (map check_validation l).
